@@ -90,10 +90,12 @@ func c02CheckIntents(c Cfg, intents []Intent, rec *Recorder, cfgKey string) *Dis
 		return nil
 	}
 	m1, _ := mkMW(c, true)
+	w0, w1 := oneWrap(m0.Wrap), oneWrap(m1.Wrap) // all intents of a case through one wrapped handler per middleware
+	m0.Config()                                  // an observer: calling it on one of the two middlewares changes nothing
 	for _, in := range intents {
 		want, why := Permits(c, in)
-		got0, tr0 := Browser(m0.Wrap, in)
-		got1, tr1 := Browser(m1.Wrap, in)
+		got0, tr0 := Browser(w0, in)
+		got1, tr1 := Browser(w1, in)
 		rec.Eval(2)
 		if got0 != want || got1 != want {
 			tr, dbg := tr0, false
